@@ -62,9 +62,27 @@ RULE = ("as C14 with one or two solve_order directives per class (single fields,
         "rand set; compared per call: the ordered groups of every rand set, the swizzle candidates group by group in trial order, the "
         "draws; oracles of C01/C02 on every call (all constraints hold, SolveFailure iff unsatisfiable by enumeration)")
 
+def list_orders(ck, tier):
+    """solve_order between a scalar and a whole list (the list stands for its size field and its elements): ordered groups,
+    candidates and draws of the list scenarios of C04, every one of them with such a directive; what concerns the exposed
+    list itself is C04's"""
+    import c04
+    c04.ORDER_P[0] = 1.0
+    n0 = len(ck.oracle_failures)
+    saved = dict(solvecheck.OPTS)
+    # the list scenarios are compared without inferred ranges and draws (C04's convention), but with the ordered groups
+    solvecheck.OPTS.update({"bounds": False, "range_oracle": False, "order_groups": True})
+    try:
+        c04.run(ck, 1500 if tier == "thorough" else 60, 0.0)
+    finally:
+        solvecheck.OPTS.update(saved)
+    own = ("list-constraint-violated", "list-access-paths", "edit-does-not", "fixed-size-list")
+    ck.oracle_failures[n0:] = [f for f in ck.oracle_failures[n0:] if not f["signature"].startswith(own)]
+
+
 if __name__ == "__main__":
     common.run_main(lambda: solvecheck.standard_main(
         "C20", ["C20", "C20Order"], THEOREMS, PROFILE, 300, 12000,
         ["as C01/C14", "the distribution clause is carried by first_group_hits_target (a feasible drawn value of the first group is "
          "returned whatever the number of extensions) plus the assumed uniformity of randint; no frequency test is run"],
-        RULE, bounds=True))
+        RULE, extra=list_orders, bounds=True))
